@@ -103,7 +103,7 @@ func (cfg DecodeOptions) Decode(na datamodel.NodeAssembler, r io.Reader) error {
 		return na2.DecodeDagCbor(r)
 	}
 	// Okay, generic builder path.
-	err := Unmarshal(na, cbor.NewDecoder(cfg.refmtDecodeOptions(), r), cfg)
+	err := Unmarshal(na, negIntRangeGuard{cbor.NewDecoder(cfg.refmtDecodeOptions(), r)}, cfg)
 
 	if err != nil {
 		return err
@@ -129,6 +129,22 @@ func (cfg DecodeOptions) Decode(na datamodel.NodeAssembler, r io.Reader) error {
 // and in particular, stop seeing types from refmt (like shared.TokenSource) be visible.
 // Right now, some kinds of configuration (e.g. for whitespace and prettyprint) are only available through interacting with the refmt types;
 // we should improve our API so that this can be done with only our own types in this package.
+
+// negIntRangeGuard wraps the CBOR token source to reject the one negative integer
+// that refmt's decoder lets wrap around: a major type 1 argument of 2^64-1 (-2^64)
+// is reported as the integer 0. Negative integer tokens from the CBOR decoder are
+// always below zero, so a non-negative one can only be that overflow.
+type negIntRangeGuard struct {
+	shared.TokenSource
+}
+
+func (g negIntRangeGuard) Step(tk *tok.Token) (bool, error) {
+	done, err := g.TokenSource.Step(tk)
+	if err == nil && tk.Type == tok.TInt && tk.Int >= 0 {
+		return true, errors.New("cbor: negative integer out of range of int64 type")
+	}
+	return done, err
+}
 
 // Unmarshal is a deprecated function.
 // Please consider switching to DecodeOptions.Decode instead.
